@@ -89,6 +89,15 @@ def _impl(tier, seed, search):
             Rs = [mkR() for _ in range(M)]
             ok, r = L.noraise(f'SO{d}[M]*p', lambda: SOc(Rs, check=False) * p, dict(dim=d, M=M, p=p), f'{M}-valued SO{d} * point')
             if ok: L.close(f'SO{d}[M]*p', r, np.stack([Rk @ p for Rk in Rs], axis=1), TOL, float(np.max(np.abs(p))), dict(dim=d, M=M, p=p, Rs=Rs))
+        # small-scale data: micrometre-sized points under rotations by tiny angles (an image coordinate of order 1e-14 is still data, relative to 1e-6)
+        sc6 = 10.0 ** g.uniform(-7, -5); ang6 = 10.0 ** g.uniform(-9, -7) * float(g.choice([-1, 1]))
+        p6 = np.array([sc6, 0.0, sc6]); want6 = np.array([sc6 * math.cos(ang6), sc6 * math.sin(ang6), sc6])
+        for nm_, f_, w_ in (('SO3.Rz*p(small)', lambda: SO3.Rz(ang6) * p6, want6), ('SE3.Rz*p(small)', lambda: SE3.Rz(ang6) * p6, want6),
+                            ('SO2*p(small)', lambda: SO2(ang6) * p6[:2], want6[:2]), ('SE2*p(small)', lambda: SE2(0, 0, ang6) * p6[:2], want6[:2])):
+            ok, r = L.noraise(nm_, f_, dict(p=p6, angle=ang6), nm_)
+            if ok: L.close(nm_, np.asarray(r, float).flatten(), w_, TOL, sc6, dict(p=p6, angle=ang6), what='pose * point differs from R p relative to the magnitude of the (micrometre-scale) data', sig='small-scale-point')
+        ok, r = L.noraise('SO3*p vs column(small)', lambda: (np.asarray(SO3.Rz(ang6) * p6, float).flatten(), np.asarray(SO3.Rz(ang6) * np.stack([p6, 2 * p6], axis=1), float)[:, 0]), dict(p=p6, angle=ang6), 'single point vs column of a 3xN call')
+        if ok: L.close('SO3*p = column of SO3*[p ..](small)', r[0], r[1], TOL, sc6, dict(p=p6, angle=ang6), sig='small-scale-point')
         # orientation (handedness) preserved in 3-D
         T = inputs.se3(g, 2); X = SE3(T, check=False)
         a, c, e, o = (g.normal(size=3) for _ in range(4))
